@@ -131,6 +131,7 @@ public:
 
   // ---- Modifiers ----
   void clear();
+  void clone_schema(const dataframe &);
   iterator erase(iterator, iterator);
 
   // ---- Convenience ----
